@@ -67,7 +67,7 @@ def main(argv):
     try:
         h0 = None
         if equiv:
-            rc0, o0 = sh('%s %s' % (PY, equiv), cwd=wt, env=dict(os.environ, PYTHONHASHSEED='0'))
+            rc0, o0 = sh('%s %s 2>/dev/null' % (PY, equiv), cwd=wt, env=dict(os.environ, PYTHONHASHSEED='0'))
             h0 = hashlib.sha256(o0.encode()).hexdigest()
         rc, o = sh('git apply %s' % patch, cwd=wt)
         if rc:
@@ -78,7 +78,7 @@ def main(argv):
         meta['tests'] = o.strip().splitlines()[-1] if o.strip() else ''
         meta['tests_pass'] = (rc == 0 and '165 passed' in meta['tests'])
         if equiv:
-            rc1, o1 = sh('%s %s' % (PY, equiv), cwd=wt, env=dict(os.environ, PYTHONHASHSEED='0'))
+            rc1, o1 = sh('%s %s 2>/dev/null' % (PY, equiv), cwd=wt, env=dict(os.environ, PYTHONHASHSEED='0'))
             meta['equiv_identical'] = (hashlib.sha256(o1.encode()).hexdigest() == h0 and rc1 == rc0)
             meta['equiv_bytes'] = len(o1)
         with concurrent.futures.ThreadPoolExecutor(jobs) as ex:
